@@ -130,7 +130,9 @@ impl BaseBandModulationParams {
     }
 
     pub const fn delay_in_symbols(&self, delay_in_ms: u32) -> u16 {
-        (delay_in_ms * 1000 / self.t_sym_us) as u16
+        // round up: the symbol count has to cover the whole delay (flooring left a
+        // receive window up to one symbol short of preamble + delay)
+        (delay_in_ms * 1000).div_ceil(self.t_sym_us) as u16
     }
 
     pub const fn symbols_to_ms(&self, symbols: u32) -> u32 {
